@@ -28,6 +28,7 @@ type encSpec struct {
 	view   string // view type whose getters decode the result
 	args   []encArg
 	expect map[string][]string // getter -> allowed decoded values (first = the value supplied by the caller)
+	pre    map[int]uint8       // receiver bytes fixed by the view's own encoder (IP4: version/IHL 0x45)
 }
 
 func pInt(name string, w int) string { return bitprov.ParamInt(name, w).String() }
@@ -35,6 +36,35 @@ func pInt(name string, w int) string { return bitprov.ParamInt(name, w).String()
 // composeVal substitutes the bytes of the encoded image into a getter's provenance.
 func composeVal(v bitprov.Val, img map[int]bitprov.Int, maxOff int, zeroed bool) string {
 	subst := func(a bitprov.Int) bitprov.Int {
+		// a big-endian field whose bytes are the consecutive bytes of one symbolic value: that value
+		for n := 2; n <= 4; n++ {
+			if a.Sym != "" || a.B[0].K != bitprov.In || a.B[0].Src != "" {
+				break
+			}
+			off := int(a.B[(n-1)*8].Off)
+			if a.B[(n-1)*8].K != bitprov.In || a.String() != bitprov.BE("", off, n).String() {
+				continue
+			}
+			sym := ""
+			ok := true
+			for k := 0; k < n; k++ {
+				by, has := img[off+k]
+				want := fmt.Sprintf("byte%d(", n-1-k)
+				if !has || !strings.HasPrefix(by.Sym, want) || !strings.HasSuffix(by.Sym, ")") {
+					ok = false
+					break
+				}
+				inner := by.Sym[len(want) : len(by.Sym)-1]
+				if sym == "" {
+					sym = inner
+				} else if sym != inner {
+					ok = false
+				}
+			}
+			if ok && sym != "" {
+				return bitprov.UnknownInt(sym)
+			}
+		}
 		// a getter that returns one whole byte: the image byte itself (keeps symbolic names)
 		if a.Sym == "" && a.B[0].K == bitprov.In && a.B[0].Src == "" && a.String() == bitprov.Byte("", int(a.B[0].Off)).String() {
 			if by, ok := img[int(a.B[0].Off)]; ok {
@@ -164,15 +194,19 @@ func runC03(c *Ctx) {
 			expect: map[string][]string{"Version": {"4"}, "IHL": {"20"}, "TotalLen": {"20"}, "TTL": {pInt("ttl", 8)}, "Src": {"src[0:4]", "IPv4zero[0:4]"}, "Dst": {"dst[0:4]", "IPv4zero[0:4]"},
 				"Fragment": {"0"}, "FlagMoreFragments": {"false"}, "Checksum": {"0"}, "@ret": {"p[0:20]"}}},
 		{fn: "IP4.SetPayload", view: "IP4", args: []encArg{{"p", "buf", 0}, {"b", "bytes", 0}, {"protocol", "int", 8}},
-			expect: map[string][]string{"Protocol": {pInt("protocol", 8)}}},
-		{fn: "IP4.AppendPayload", view: "IP4", args: []encArg{{"p", "buf", 0}, {"b", "bytes", 0}, {"protocol", "int", 8}},
-			expect: map[string][]string{"Protocol": {pInt("protocol", 8)}}},
+			expect: map[string][]string{"Protocol": {pInt("protocol", 8)}, "TotalLen": {"trunc16((20 + len(b)))"}}},
+		{fn: "IP4.AppendPayload", view: "IP4", args: []encArg{{"p", "buf", 0}, {"b", "bytes", 0}, {"protocol", "int", 8}}, pre: map[int]uint8{0: 0x45},
+			expect: map[string][]string{"Protocol": {pInt("protocol", 8)}, "TotalLen": {"trunc16((20 + len(b)))"}}},
 		{fn: "EncodeIP6", view: "IP6", args: []encArg{{"p", "buf", 0}, {"hopLimit", "int", 8}, {"srcIP", "addr", 0}, {"dstIP", "addr", 0}},
 			expect: map[string][]string{"Version": {"6"}, "TrafficClass": {"0"}, "FlowLabel": {"0"}, "PayloadLen": {"0"}, "HopLimit": {pInt("hopLimit", 8)}, "Src": {"srcIP[0:16]"}, "Dst": {"dstIP[0:16]"}}},
 		{fn: "IP6.SetPayload", view: "IP6", args: []encArg{{"p", "buf", 0}, {"b", "bytes", 0}, {"nextHeader", "int", 8}},
-			expect: map[string][]string{"NextHeader": {pInt("nextHeader", 8)}}},
+			expect: map[string][]string{"NextHeader": {pInt("nextHeader", 8)}, "PayloadLen": {"trunc16(len(b))"}}},
 		{fn: "IP6.AppendPayload", view: "IP6", args: []encArg{{"p", "buf", 0}, {"b", "bytes", 0}, {"nextHeader", "int", 8}},
-			expect: map[string][]string{"NextHeader": {pInt("nextHeader", 8)}}},
+			expect: map[string][]string{"NextHeader": {pInt("nextHeader", 8)}, "PayloadLen": {"trunc16(len(b))"}}},
+		{fn: "UDP.SetPayload", view: "UDP", args: []encArg{{"p", "buf", 0}, {"b", "bytes", 0}},
+			expect: map[string][]string{"Len": {"(8 + trunc16(len(b)))"}, "Checksum": {"0"}}},
+		{fn: "UDP.AppendPayload", view: "UDP", args: []encArg{{"p", "buf", 0}, {"b", "bytes", 0}},
+			expect: map[string][]string{"Len": {"(8 + trunc16(len(b)))"}, "Checksum": {"0"}}},
 		{fn: "EncodeUDP", view: "UDP", args: []encArg{{"p", "buf", 0}, {"srcPort", "int", 16}, {"dstPort", "int", 16}},
 			expect: map[string][]string{"SrcPort": {be16("srcPort")}, "DstPort": {be16("dstPort")}, "Checksum": {"0"}, "@ret": {"p[0:8]"}}},
 		{fn: "EncodeARP", view: "ARP", args: []encArg{{"p", "buf", 0}, {"operation", "int", 16}, {"srcAddr", "addrstruct", 0}, {"dstAddr", "addrstruct", 0}},
@@ -245,6 +279,15 @@ func runC03(c *Ctx) {
 			// setters and getters of the views; not the option encoder (loops over a map)
 			return f.Name() != "AppendOptions"
 		}}
+		if sp.pre != nil {
+			pre := sp.pre
+			ev.ByteValue = func(src string, off int) (bitprov.Int, bool) {
+				if b, ok := pre[off]; ok && src == "" {
+					return bitprov.ConstInt(uint64(b)), true
+				}
+				return bitprov.Int{}, false
+			}
+		}
 		rets := ev.Run(fn, args)
 		// per getter: the set of decoded values over all successful paths
 		decoded := map[string]map[string]bool{}
